@@ -59,6 +59,7 @@ type Case struct {
 	IgnoreMissing       bool
 	Shuffle             int64  // order in which histories are handed to the data source
 	AsChildren          bool   // use the ...AsChildren data source interface
+	PolygonRel          bool   // relation parents are type=multipolygon (orientation code path) instead of route
 	LateBase            bool   // Pre regime only: timestamps in 2015 (no commit info although after CommitInfoStart)
 	Reject              []bool // per child: ChildFilter returns false (nil = no filter)
 }
@@ -259,6 +260,9 @@ func (c *Case) BuildRelations() osm.Relations {
 	for _, p := range c.Parents {
 		ts, cm := c.stamp(p.At)
 		r := &osm.Relation{ID: 1, Version: p.Ver, Visible: p.Visible, Timestamp: ts, Committed: cm, ChangesetID: osm.ChangesetID(p.CS), Tags: osm.Tags{{Key: "type", Value: "route"}}}
+		if c.PolygonRel {
+			r.Tags = osm.Tags{{Key: "type", Value: "multipolygon"}}
+		}
 		for j, ci := range p.Refs {
 			ch := c.Children[ci]
 			m := osm.Member{Type: []osm.Type{osm.TypeNode, osm.TypeWay, osm.TypeRelation}[ch.Kind], Ref: ch.ID, Role: fmt.Sprintf("r%d", j)}
@@ -300,6 +304,7 @@ func Gen(t *rapid.T, o Opts) Case {
 		}
 	}
 	c.Shuffle = int64(rapid.IntRange(0, 1000).Draw(t, "shuffle"))
+	c.PolygonRel = !c.ParentIsWay && rapid.IntRange(0, 2).Draw(t, "polygonRel") == 0
 	c.AsChildren = rapid.IntRange(0, 3).Draw(t, "asChildren") == 0
 	return c
 }
